@@ -62,6 +62,10 @@ def gen_case(rnd, tier: str, i: Any) -> Dict[str, Any]:
         # trace_dir, or a plain list of paths (ranks inferred from the files' metadata)
         "ctor": rnd.choice(["dir", "dir", "dict_abs", "dict_rel", "list"]),
     }
+    if case["params"]["n_ranks"] > 8:
+        # the branch that sizes the pool from a sample parse needs multiprocessing (and, by default, memory profiling)
+        case["cfg"]["mp"] = rnd.random() < 0.75
+        case["cfg"]["mem_prof"] = rnd.random() < 0.75
     return case
 
 
